@@ -295,6 +295,11 @@ def contains_parts(c, x):
     return val, err
 
 
+RangeSeq = z3.RecFunction("RangeSeq", I, I, VS)     # [VInt(lo), ..., VInt(hi-1)]
+_lo, _hi = z3.Int("rs_lo"), z3.Int("rs_hi")
+z3.RecAddDefinition(RangeSeq, [_lo, _hi], z3.If(_lo >= _hi, z3.Empty(VS), z3.Concat(z3.Unit(VInt(_lo)), RangeSeq(_lo + 1, _hi))))
+
+
 # ------------------------------------------------------------------------------------------ dict access
 DictIdx = z3.RecFunction("DictIdx", VS, Val, I, I)  # index of the key == x among the first k keys, or -1
 
